@@ -31,14 +31,14 @@ type Wide struct {
 
 // Val is an abstract integer (or bool, width 1).
 type Val struct {
-	Lo, Hi *big.Int
-	Bits   []Bit // little-endian, len == W (nil: all unknown)
-	W      int
-	Signed bool
-	Sym    *Sym
-	Mask   bool  // value is 0 or all-ones
-	Wide   *Wide // this value is the low (Part 0) or high (Part 1) half of Wide
-	Part   int
+	Lo, Hi  *big.Int
+	Bits    []Bit // little-endian, len == W (nil: all unknown)
+	W       int
+	Signed  bool
+	Sym     *Sym
+	Mask    bool  // value is 0 or all-ones
+	Wide    *Wide // this value is the low (Part 0) or high (Part 1) half of Wide
+	Part    int
 	CarryOf *Wide // this value is the carry out of the low-half addition that formed CarryOf
 	Poly    *Poly // exact integer value as a polynomial over inputs and carry variables (nil: unknown); see poly.go
 	PolyMod bool  // Poly equals the value only modulo 2^W (a wrapping intermediate of a recognised modular idiom)
